@@ -2,7 +2,7 @@
 """C18 (real binary part): `--test` verdicts and start-up. For each configuration of a grid of mutants of a runnable
 base document: `--test x` must end with exit 0 or a clean error (never a signal / abort); a configuration it accepts
 must start, serve one request per listener and one UDP association, accept a rule POST naming every connector, and stay alive."""
-import sys, json, copy
+import sys, json, copy, shutil
 sys.path.insert(0, '/verif/e4')
 from lib import *
 
@@ -92,6 +92,20 @@ MUTANTS = [
     ('lb nested undefined member', [(['connectors'], [{'name': 'direct'}, lb('pool', ['backup']), lb('backup', ['ghost'])]), (['rules', 0, 'target'], 'pool')]),
     ('lb unused with undefined member', [(['connectors'], [{'name': 'direct'}, lb('spare', ['ghost'])])]),
     ('lb unused empty', [(['connectors'], [{'name': 'direct'}, lb('spare', [])])]),
+    ('listeners = []', [(['listeners'], [])]),
+    ('connectors = [] and rules = []', [(['connectors'], []), (['rules'], [])]),
+    ('connectors = [] (rule names direct)', [(['connectors'], [])]),
+    ('rules = []', [(['rules'], [])]),
+    ('rules absent', [(['rules'], DELETE)]),
+    ('listeners absent', [(['listeners'], DELETE)]),
+    ('connectors absent', [(['connectors'], DELETE)]),
+    ('metrics absent', [(['metrics'], DELETE)]),
+    ('one listener only', [(['listeners'], 'FIRST-ONLY')]),
+    ('lb with no members', [(['connectors'], [{'name': 'direct'}, lb('pool', [])]), (['rules', 0, 'target'], 'pool')]),
+    ('accessLog on a full device', [(['accessLog'], {'path': '/dev/full', 'format': 'json'})]),
+    ('accessLog directory removed while running', [(['accessLog'], 'LOGDIR')]),
+    ('accessLog path is a directory', [(['accessLog'], {'path': '/tmp', 'format': 'json'})]),
+    ('accessLog path in a missing directory', [(['accessLog'], {'path': '/nonexistent/dir/access.log', 'format': 'json'})]),
     ('lb nested ok', [(['connectors'], [{'name': 'direct'}, lb('pool', ['backup']), lb('backup', ['direct'])]), (['rules', 0, 'target'], 'pool')]),
     ('lb hashBy non-string', [(['connectors'], [{'name': 'direct'}, lb('a', ['direct'], algo={'hashBy': 'request.target.port'})]), (['rules', 0, 'target'], 'a')]),
     ('lb hashBy runtime error', [(['connectors'], [{'name': 'direct'}, lb('a', ['direct'], algo={'hashBy': 'to_string(1 / (request.target.port - request.target.port))'})]), (['rules', 0, 'target'], 'a')]),
@@ -104,6 +118,7 @@ for v in BIG:
     if v not in (0,):
         MUTANTS.append((f'metrics.historySize = {v}', [(['metrics', 'historySize'], v)]))
     MUTANTS.append((f'ioParams.bufferSize = {v}', [(['ioParams'], {'bufferSize': v, 'useSplice': v % 2 == 0})]))
+    MUTANTS.append((f'tproxy maxUdpSocket = {v}', [(['listeners'], 'PLUS-TPROXY:%d' % v)]))
     MUTANTS.append((f'socks auth cache timeout = {v}', [(['listeners', 1, 'auth'], {'required': False, 'users': [], 'cmd': ['/bin/true'], 'cache': {'timeout': v}})]))
 
 def probe(px, hp, sp):
@@ -152,10 +167,17 @@ def one(m):
     for path, val in edits:
         if val == 'SAME' or val == 'LISTENER0':
             val = cfg['listeners'][0]['bind']
+        if val == 'FIRST-ONLY':
+            val = cfg['listeners'][:1]
+        if isinstance(val, str) and val.startswith('PLUS-TPROXY:'):
+            val = cfg['listeners'] + [{'name': 'tp', 'type': 'tproxy', 'bind': f'127.0.0.1:{free_port()}', 'protocol': 'udp', 'maxUdpSocket': int(val.split(':')[1])}]
+        if val == 'LOGDIR':
+            val = {'path': 'logs/access.log', 'format': 'json'}
         setp(cfg, path, val)
     px = Proxy(cfg, 'c18')
     px.api_port = ap
     open(os.path.join(px.dir, 'EMPTYFILE'), 'w').write('not a pem file\n')
+    os.makedirs(os.path.join(px.dir, 'logs'), exist_ok=True)
     res = {'name': name}
     try:
         rc, out = px.test_mode()
@@ -171,7 +193,8 @@ def one(m):
         if rc == 1:
             return dict(res, outcome='rejected')
         # accepted: must start and run
-        ok = px.start([hp, sp] if isinstance(cfg['listeners'][0].get('name'), str) and 'tls' not in cfg['listeners'][0] else [], timeout=8)
+        ls = cfg.get('listeners') if isinstance(cfg.get('listeners'), list) else []
+        ok = px.start([hp, sp][:len(ls)] if ls and isinstance(ls[0].get('name'), str) and 'tls' not in ls[0] else [], timeout=8)
         time.sleep(0.3)
         if not px.alive():
             rc2 = px.returncode()
@@ -188,6 +211,19 @@ def one(m):
                     outs += probe(px, hp, sp)
                     if not px.alive():
                         break
+        if isinstance(cfg.get('accessLog'), dict):
+            # enough records to fill the log task's buffer, with the log directory gone in between, and a rotation
+            for i in range(60):
+                if i == 20:
+                    shutil.rmtree(os.path.join(px.dir, 'logs'), ignore_errors=True)
+                if i == 40:
+                    outs.append(f"logrotate:{px.api('POST', '/logrotate')[0]}")
+                try:
+                    s_, code_, _, _ = http_connect(hp, f'127.0.0.1:{origin.port}', timeout=3)
+                    s_.close()
+                except OSError:
+                    outs.append('http:error-while-logging')
+                    break
         time.sleep(1.3)  # one GC / log pass
         if not px.alive():
             return dict(res, verdict=('config.traffic', 'accepted-then-dies-under-traffic', f'{name}: accepted, then the process ended with {px.returncode()} after {outs}: {px.log()[-400:]}'))
